@@ -27,7 +27,7 @@ RT = 1e-11
 def bounds(tier):
     return {"affine_broadcast_pairs": 8, "permutations": "all of S_n for every shape with n<=4 elements (quick) / n<=6 (thorough: all 720 of S_6 on 4 shapes)",
             "spline": "knots {1,3,5} x interval {2,(-1,3),(1,5),(-5,-1)} x min_derivative {1e-3,0.5} x levels 0-2 x 2001-point lattice",
-            "planar": "dim 1-3 x tanh / leaky slopes {0.1,1} x 5 parameter states x cond", "levels": [0, 1, 2],
+            "planar": "dim 1-3 x tanh / leaky slopes {0.1,1,3} x 5 parameter states x cond", "levels": [0, 1, 2],
             "exhaustive_within_bounds": True}
 
 
@@ -64,7 +64,7 @@ def enumerate_cases(tier, seed):
             for md in (1e-3, 0.5):
                 add("RQS", knots=knots, interval=iv, min_derivative=md)
     for d in (1, 2, 3):
-        for slope in (None, 0.1, 1.0):
+        for slope in (None, 0.1, 1.0, 3.0):
             for cond in (None, 2):
                 add("Planar", dim=d, slope=slope, cond=cond)
     # float32 pass (the library's default dtype) for the closed-form leaves: constants computed at construction and the
